@@ -13,6 +13,10 @@ fuzz    the texts of tests/test_dimacsparser.py (both tiers) and, thorough tier 
         coverage-guided atheris campaigns with the same oracle inside the fuzz target.
 writer  also holds the *history* cases (kind=history): one formula object encoded, changed,
         encoded again ... against the harness's own model of the object (_run_history).
+reader  also holds the *byte level* cases (cases with 'data', run_reader_bytes): files that are not clean UTF-8
+        text (invalid bytes, BOMs, NULs, Latin-1 letters, cut multi-byte sequences inside comments, the problem line
+        and the clause lines) given BY NAME to CNF.from_file / cnfgen dimacs / cnfshuffle -i, and through handles
+        the caller opened with 14 encoding/error-handler pairs; the real programs under a UTF-8 and an ASCII locale.
 writer_large  large instances: formulas around the usual buffer sizes through the writers, and
         DIMACS texts of 1..4 MiB in every alignment with the powers of two through the readers
         (run_reader_big).
